@@ -645,23 +645,28 @@ func groupExpRule(P *Program, R *Report) {
 	}
 	R.decide(rule, k+":exponent-source", "the exponent used is the argument or its folded value, nothing else", okSrc, "", P.Pos(texp.Pos()))
 	mp0 := &MustPass{P: P, Match: func(a Atom) bool {
-		bo, ok := a.V.(*ssa.BinOp)
-		if !ok {
+		// exp < Order, whichever operand the comparison is written on (exp.Cmp(order) < 0, order.Cmp(exp) > 0, negated forms)
+		g, ok := P.guardOf(a)
+		if !ok || g.Kind != "big" || g.Call == nil || len(callArgs(g.Call)) != 2 {
 			return false
 		}
-		c, isC := stripConv(bo.X).(*ssa.Call)
-		if !isC || bigMethod(c) != "Cmp" || callArgs(c)[0] != expV || desc(callArgs(c)[1]) != ord {
+		ar := callArgs(g.Call)
+		var rel string
+		switch {
+		case ar[0] == expV && desc(ar[1]) == ord:
+			rel = g.Rel
+			if g.SubjV != ar[0] {
+				rel = relFlip[rel]
+			}
+		case ar[1] == expV && desc(ar[0]) == ord:
+			rel = g.Rel
+			if g.SubjV != ar[1] {
+				rel = relFlip[rel]
+			}
+		default:
 			return false
 		}
-		kk, okk := constInt(bo.Y)
-		if !okk {
-			return false
-		}
-		rel := tokRel(bo.Op)
-		if a.Want == False {
-			rel = relNeg[rel]
-		}
-		return cmpOutcomeRel(rel, kk) == "<"
+		return rel == "<"
 	}}
 	mp0.init()
 	res := mp0.search(fn, AcceptAny(), 0, searchOpts{startAt: []*mpState{{b: texp.Block(), note: "table exponentiation at " + P.Pos(texp.Pos())}}, startInstr: texp})
